@@ -561,6 +561,27 @@ func c15(c *Ctx) {
 				}
 			}
 		}
+		// the way the writer is told is an optional interface: it must be one the pipe
+		// writer that feeds the cache actually has, or the branch is dead
+		for _, b := range cl.Blocks {
+			for _, in := range b.Instrs {
+				ta, ok := in.(*ssa.TypeAssert)
+				if !ok || !ta.CommaOk {
+					continue
+				}
+				iface, isIface := ta.AssertedType.Underlying().(*types.Interface)
+				if _, p, _ := flow.AccessPathC(ta.X); p != "w" || !isIface {
+					continue
+				}
+				impl := false
+				if iop := c.P.All["io"]; iop != nil && iop.Types != nil {
+					if tn, _ := iop.Types.Scope().Lookup("PipeWriter").(*types.TypeName); tn != nil {
+						impl = types.Implements(types.NewPointer(tn.Type()), iface)
+					}
+				}
+				c.R.Check(impl, load.FuncName(cl)+": the writer can be told", c.pos(ta.Pos()), "*io.PipeWriter (the writer feeding the cache) implements the interface Close asserts", "the interface Close asserts on the writer is not implemented by *io.PipeWriter: the failure branch is dead and the cache writer always sees a clean end of stream")
+			}
+		}
 		if len(failed) == 0 {
 			c.R.Bad(load.FuncName(cl)+": source failure reaches the writer", c.pos(cl.Pos()), "Close never consults a recorded read error: the writer always sees a clean end of stream, also after the source failed mid-way")
 		} else {
